@@ -178,6 +178,17 @@ pub fn judge(h: &History, st: &mut Stats) -> Verdict {
                             format!("Ok with length field {}", field),
                         ));
                     }
+                    if plen > 65535 {
+                        // every write was reported as done, so more than 65535 bytes were handed over: a length field that
+                        // describes only part of them is a truncated length
+                        return Err(Fail::new(
+                            "overflow-not-refused",
+                            shape_h(h),
+                            entry,
+                            format!("build fails: the writes that succeeded amount to {} bytes after the fixed part and no explicit length is in force", plen),
+                            format!("Ok with length field {} ({} bytes follow the fixed part)", field, actual),
+                        ));
+                    }
                     if field != actual {
                         return Err(Fail::new(
                             "computed-length-wrong",
